@@ -148,7 +148,8 @@ func vC10Right(variant int) vC10Input {
 	case 8:
 		// the copy says more about facts that the base only mentions
 		r.people[0].nameParts = "2 GIVN John\n2 SURN Smith\n"
-		r.people[0].extra = "1 BURI\n2 DATE 4 Jan 1900\n2 PLAC Waverley\n1 OCCU Farmer\n2 DATE 1880\n"
+		// (two census events that are equal as far as Equals goes, and that the base lacks)
+		r.people[0].extra = "1 BURI\n2 DATE 4 Jan 1900\n2 PLAC Waverley\n1 OCCU Farmer\n2 DATE 1880\n1 CENS\n2 DATE 1881\n2 PLAC Lambeth\n1 CENS\n2 DATE 1891\n2 PLAC Camberwell\n"
 		r.people[1].extra = "1 RESI\n2 PLAC Sydney\n"
 		return vC10Rename(r, vC10Renumber)
 	case 5:
